@@ -18,7 +18,7 @@ import warnings
 import h5py
 import numpy as np
 
-from ctmverif import core, gen, pipeline, stats_util
+from ctmverif import core, gen, pipeline, stats_util, stagefiles_util
 from ctmverif.stats_util import jrat, unrat, close
 
 RULE = ('references generated from a random taxonomy (<=4 levels, incl. '
@@ -1245,11 +1245,17 @@ def run(ctx):
             continue
         check_merge(ctx, ref, rng.choice(cfgs), rng)
         check_read(ctx, ref, rng.choice(cfgs))
+        # the name tables that link the file to the later stages (model
+        # CTM/Model/StageFiles.lean): rows and gene columns permuted
+        stagefiles_util.check_names(ctx, rng)
 
 
 def replay(ctx, data, from_corpus=False):
     d = data.get('detail', data)
     kind = d.get('kind')
+    if kind == 'names':
+        stagefiles_util.replay_names(ctx, d)
+        return
     if kind not in ('precompute', 'truncate', 'truncate-bad', 'merge', 'read'):
         if not from_corpus:
             print('nothing to replay for kind', kind)
